@@ -1,9 +1,10 @@
 From Coq Require Import ExtrOcamlBasic ExtrOcamlString List Bool Arith.
-From IV Require Import C02.Defs.
+From IV Require Import C02.Defs C02.ArityDefs.
 (* the hierarchy as association lists *)
 Definition depth_of (t : list (nat * nat)) (c : nat) : nat := match find (fun x => Nat.eqb (fst x) c) t with Some x => snd x | None => 0 end.
 Definition base_of (t : list (nat * nat)) (b d : nat) : bool := existsb (fun x => Nat.eqb (fst x) b && Nat.eqb (snd x) d) t.
 Definition run (depths : list (nat * nat)) (bases : list (nat * nat)) (overloads : list (list pkind)) (args : list arg) : option (list pkind) :=
   dispatch (base_of bases) (sort (depth_of depths) overloads) args.
 Extraction Language OCaml.
-Extraction "ext.ml" run.
+Definition arity_labels (rs : list remap) : list (nat * nat * list nat) := labels (table rs).
+Extraction "ext.ml" run arity_labels.
